@@ -6,6 +6,8 @@ import (
 	"go/constant"
 	"go/token"
 	"go/types"
+	"sort"
+	"strings"
 
 	"golang.org/x/tools/go/ssa"
 )
@@ -24,7 +26,10 @@ func (a *c05) wgCall(ci ssa.CallInstruction, name string) bool {
 	if len(args) == 0 {
 		return false
 	}
-	_, ok := c05FieldAddr(args[0], a.fJobWaiter)
+	if _, ok := c05FieldAddr(args[0], a.fJobWaiter); ok {
+		return true
+	}
+	_, ok := c05LoadOf(args[0], a.fJobWaiter) // the counter held through a pointer field
 	return ok
 }
 
@@ -50,25 +55,46 @@ func (a *c05) checkWaiterReuse() {
 				return
 			}
 			n++
-			construct := a.name(fn) + " waits on Cron.jobWaiter"
-			if !isWG {
-				r.Trivial("C05.S3-waiter-reuse", construct, a.pos(in), "Cron.jobWaiter is not a sync.WaitGroup; its reuse restriction does not apply")
-				return
-			}
+			// The obligation key is role-based: the exported entry point(s) whose
+			// goroutine does the waiting, not the name of the closure/helper that
+			// happens to contain the call.
 			detached := false
-			if par := fn.Parent(); par != nil {
-				allInstrs(par, func(j ssa.Instruction) {
-					if g, ok := j.(*ssa.Go); ok {
-						if mc, ok := g.Call.Value.(*ssa.MakeClosure); ok && mc.Fn == fn {
-							detached = true
-						}
-					}
-				})
-			}
-			for _, s := range a.sites[fn] {
-				if _, ok := s.(*ssa.Go); ok {
-					detached = true
+			spawners := map[*ssa.Function]bool{}
+			seenUp := map[*ssa.Function]bool{}
+			var up func(f *ssa.Function)
+			up = func(f *ssa.Function) {
+				if seenUp[f] {
+					return
 				}
+				seenUp[f] = true
+				for _, s := range a.sites[f] {
+					if _, ok := s.(*ssa.Go); ok {
+						detached = true
+						spawners[s.Parent()] = true
+					} else if !isExportedFunc(f) {
+						up(s.Parent())
+					}
+				}
+			}
+			up(fn)
+			if !detached {
+				spawners[fn] = true
+			}
+			rootSet := map[string]bool{}
+			for sp := range spawners {
+				for _, rn := range a.apiRoots(sp) {
+					rootSet[rn] = true
+				}
+			}
+			var rootNames []string
+			for rn := range rootSet {
+				rootNames = append(rootNames, rn)
+			}
+			sort.Strings(rootNames)
+			construct := strings.Join(rootNames, "+") + ": wait on the job counter"
+			if !isWG {
+				r.Trivial("C05.S3-waiter-reuse", construct, a.pos(in), "the job counter is not a sync.WaitGroup; its reuse restriction does not apply")
+				return
 			}
 			held := a.e.At(in)[a.lockID] == ModeW
 			r.Check(!detached && held, "C05.S3-waiter-reuse", construct, a.pos(in),
@@ -239,201 +265,250 @@ func (a *c05) checkJobAccounting() {
 	}
 }
 
-// checkStopContext: Stop returns the ctx of context.WithCancel(Background) and
-// cancel is invoked only after jobWaiter.Wait().
+// checkStopContext: what the exported Stop returns is (on every return, through
+// helpers, named results and temporaries) the context of one
+// context.WithCancel(Background) call, and every invocation of that call's
+// cancel function — in the creating function, its closures, or functions it is
+// handed to — happens after jobWaiter.Wait().
 func (a *c05) checkStopContext() {
 	r, p := a.r, a.p
 	stop := p.Func("cron", "Cron.Stop")
-	var wc *ssa.Call
-	kind := ""
-	allInstrs(stop, func(in ssa.Instruction) {
-		call, ok := in.(*ssa.Call)
-		if !ok {
-			return
-		}
-		obj := calleeObj(call)
-		if obj == nil || obj.Pkg() == nil || obj.Pkg().Path() != "context" {
-			return
-		}
-		switch obj.Name() {
-		case "WithCancel", "WithCancelCause":
-			wc, kind = call, obj.Name()
-		case "WithTimeout", "WithDeadline", "WithTimeoutCause", "WithDeadlineCause":
-			wc, kind = call, obj.Name()
-		}
-	})
 	cRet := "cron.Cron.Stop returns the job-completion context"
-	cCan := "cron.Cron.Stop cancels only after jobWaiter.Wait"
-	if wc == nil {
-		r.Undecide("C05.S3: Stop no longer derives its result from context.WithCancel; the completion signal is not understood")
-		return
-	}
-	if kind != "WithCancel" && kind != "WithCancelCause" {
-		r.Violation("C05.S3-stop-context", cRet, a.pos(wc), "the context returned by Stop comes from context."+kind+": it completes when the deadline passes although started jobs are still running")
-		return
-	}
-	parentOK := false
-	if pc, ok := wc.Call.Args[0].(*ssa.Call); ok {
-		if callIs(pc, "context", "", "Background") || callIs(pc, "context", "", "TODO") {
-			parentOK = true
+	cCan := "cron.Cron.Stop cancels only after the job counter's Wait"
+	// resolve the returned value to context-creating calls
+	wcs := map[*ssa.Call]bool{}
+	unknown := ""
+	var resolve func(v ssa.Value, depth int)
+	seenV := map[ssa.Value]bool{}
+	resolve = func(v ssa.Value, depth int) {
+		if seenV[v] {
+			return
 		}
-	}
-	if !parentOK {
-		r.Undecide("C05.S3: the parent of Stop's context is not context.Background()/TODO(); whether it can be cancelled early is not decided")
-	}
-	ctxRes, cancelRes := callResult(wc, 0), callResult(wc, 1)
-	// returned values
-	retOK, nRet := true, 0
-	var resolve func(v ssa.Value, depth int) bool
-	resolve = func(v ssa.Value, depth int) bool {
-		if v == ctxRes {
-			return true
+		seenV[v] = true
+		if depth > 8 {
+			unknown = "value chain too deep"
+			return
 		}
-		if depth > 4 {
-			return false
-		}
-		if u, ok := v.(*ssa.UnOp); ok && u.Op == token.MUL {
-			if cell, ok := u.X.(*ssa.Alloc); ok {
-				n := 0
-				for _, rr := range refs(cell) {
-					if st, ok := rr.(*ssa.Store); ok && st.Addr == cell {
-						n++
-						if !resolve(st.Val, depth+1) {
-							return false
+		switch x := v.(type) {
+		case *ssa.Extract:
+			if call, ok := x.Tuple.(*ssa.Call); ok {
+				if obj := calleeObj(call); obj != nil && obj.Pkg() != nil && obj.Pkg().Path() == "context" && x.Index == 0 {
+					wcs[call] = true
+					return
+				}
+				if rets := a.returnsOf(call, x.Index); rets != nil {
+					for _, rv := range rets {
+						resolve(rv, depth+1)
+					}
+					return
+				}
+			}
+		case *ssa.Call:
+			if rets := a.returnsOf(x, 0); rets != nil {
+				for _, rv := range rets {
+					resolve(rv, depth+1)
+				}
+				return
+			}
+			if obj := calleeObj(x); obj != nil && obj.Pkg() != nil && obj.Pkg().Path() == "context" {
+				unknown = "Stop returns context." + obj.Name() + "() itself"
+				return
+			}
+		case *ssa.Phi:
+			for _, ed := range x.Edges {
+				resolve(ed, depth+1)
+			}
+			return
+		case *ssa.UnOp:
+			if x.Op == token.MUL {
+				if cell, ok := x.X.(*ssa.Alloc); ok {
+					if vals := c05CellStores(cell); len(vals) > 0 {
+						for _, sv := range vals {
+							resolve(sv, depth+1)
 						}
+						return
 					}
 				}
-				return n > 0
 			}
+		case *ssa.MakeInterface:
+			resolve(x.X, depth+1)
+			return
+		case *ssa.ChangeInterface:
+			resolve(x.X, depth+1)
+			return
 		}
-		return false
+		unknown = "a returned value is not traced to a context-creating call (" + v.String() + ")"
 	}
+	nRet := 0
 	allInstrs(stop, func(in ssa.Instruction) {
 		ret, ok := in.(*ssa.Return)
 		if !ok || len(ret.Results) != 1 || len(in.Block().Preds) == 0 && in.Block().Index != 0 {
 			return
 		}
 		nRet++
-		if ctxRes == nil || !resolve(ret.Results[0], 0) {
-			retOK = false
-		}
+		resolve(ret.Results[0], 0)
 	})
-	r.Check(retOK && nRet > 0, "C05.S3-stop-context", cRet, a.pos(wc),
-		"every return of Stop yields the context created by context."+kind,
-		"Stop returns a context other than the one cancelled after jobWaiter.Wait(): its completion says nothing about the started jobs having returned")
-
-	// uses of cancel
-	if cancelRes == nil {
-		r.Note("C05.S3: Stop discards the cancel function: the returned context never completes (liveness, not armed)")
-		r.Trivial("C05.S3-stop-context", cCan, a.pos(wc), "cancel is never called")
+	if nRet == 0 || (len(wcs) == 0 && unknown == "") {
+		r.Undecide("C05.S3: Stop has no return value that can be traced; the completion signal is not understood")
 		return
 	}
-	var cells []*ssa.Alloc
-	escaped := ""
-	for _, u := range refs(cancelRes) {
-		switch x := u.(type) {
-		case *ssa.Store:
-			if cell, ok := x.Addr.(*ssa.Alloc); ok && x.Val == cancelRes {
-				cells = append(cells, cell)
-			} else {
-				escaped = "stored at " + a.pos(u)
-			}
-		case ssa.CallInstruction:
-			if x.Common().Value != cancelRes {
-				escaped = "passed to a call at " + a.pos(u)
-			}
-		case *ssa.DebugRef:
-		default:
-			escaped = "used at " + a.pos(u)
+	if unknown != "" {
+		if len(wcs) == 0 {
+			r.Undecide("C05.S3: Stop no longer derives its result from context.WithCancel (%s); the completion signal is not understood", unknown)
+			return
 		}
-	}
-	isCancel := func(v ssa.Value) bool {
-		if v == cancelRes {
-			return true
-		}
-		if fv, ok := v.(*ssa.FreeVar); ok && resolveFreeVar(fv) == cancelRes {
-			return true
-		}
-		u, ok := v.(*ssa.UnOp)
-		if !ok || u.Op != token.MUL {
-			return false
-		}
-		var base ssa.Value = u.X
-		if fv, ok := base.(*ssa.FreeVar); ok {
-			base = resolveFreeVar(fv)
-		}
-		for _, c := range cells {
-			if base == c {
-				return true
-			}
-		}
-		return false
-	}
-	// the cells must only be loaded/captured
-	for _, cell := range cells {
-		for _, u := range refs(cell) {
-			switch x := u.(type) {
-			case *ssa.Store:
-				if x.Addr != cell {
-					escaped = "cell stored at " + a.pos(u)
-				}
-			case *ssa.UnOp, *ssa.MakeClosure, *ssa.DebugRef:
-			default:
-				escaped = "cell used at " + a.pos(u)
-			}
-		}
-	}
-	if escaped != "" {
-		r.Undecide("C05.S3: Stop's cancel function escapes (%s); its call sites cannot be enumerated", escaped)
+		r.Violation("C05.S3-stop-context", cRet, p.Pos(stop.Pos()), "on some return Stop yields a context other than the one cancelled after the job counter's Wait ("+unknown+"): its completion says nothing about the started jobs having returned")
 		return
 	}
-	why, nCalls := "", 0
-	fns := []*ssa.Function{stop}
-	for i := 0; i < len(fns); i++ {
-		fns = append(fns, fns[i].AnonFuncs...)
-	}
-	for _, fn := range fns {
-		var waits []ssa.Instruction
-		allInstrs(fn, func(in ssa.Instruction) {
-			if call, ok := in.(*ssa.Call); ok && a.wgCall(call, "Wait") {
-				waits = append(waits, in)
-			}
-		})
-		domByWait := func(at ssa.Instruction) bool {
-			for _, w := range waits {
-				if instrDominates(w, at) {
-					return true
-				}
-			}
-			return false
+	why := ""
+	nCalls := 0
+	var firstWC *ssa.Call
+	for wc := range wcs {
+		if firstWC == nil || wc.Pos() < firstWC.Pos() {
+			firstWC = wc
 		}
-		allInstrs(fn, func(in ssa.Instruction) {
-			ci, ok := in.(ssa.CallInstruction)
-			if !ok || !isCancel(ci.Common().Value) {
-				return
+	}
+	for wc := range wcs {
+		kind := calleeObj(wc).Name()
+		if kind != "WithCancel" && kind != "WithCancelCause" {
+			r.Violation("C05.S3-stop-context", cRet, a.pos(wc), "the context returned by Stop comes from context."+kind+": it completes when the deadline passes (or never reports the jobs) although started jobs are still running")
+			return
+		}
+		parentOK := false
+		if pc, ok := wc.Call.Args[0].(*ssa.Call); ok {
+			if callIs(pc, "context", "", "Background") || callIs(pc, "context", "", "TODO") {
+				parentOK = true
 			}
-			nCalls++
-			switch in.(type) {
-			case *ssa.Call:
-				if !domByWait(in) {
-					why = "cancel() at " + a.pos(in) + " in " + a.name(fn) + " is not preceded by jobWaiter.Wait()"
+		}
+		if !parentOK {
+			r.Undecide("C05.S3: the parent of Stop's context is not context.Background()/TODO(); whether it can be cancelled early is not decided")
+		}
+		cancelRes := callResult(wc, 1)
+		if cancelRes == nil {
+			r.Note("C05.S3: Stop discards the cancel function: the returned context never completes (liveness, not armed)")
+			continue
+		}
+		// follow the cancel function: values denoting it, per function
+		type item struct {
+			fn  *ssa.Function
+			val ssa.Value
+		}
+		work := []item{{wc.Parent(), cancelRes}}
+		done := map[ssa.Value]bool{}
+		escaped := ""
+		for len(work) > 0 {
+			it := work[0]
+			work = work[1:]
+			if done[it.val] {
+				continue
+			}
+			done[it.val] = true
+			fn := it.fn
+			var waits []ssa.Instruction
+			allInstrs(fn, func(in ssa.Instruction) {
+				if call, ok := in.(*ssa.Call); ok && a.wgCall(call, "Wait") {
+					waits = append(waits, in)
 				}
-			case *ssa.Go:
-				why = "cancel is spawned with go at " + a.pos(in) + " (no wait for the jobs)"
-			case *ssa.Defer:
-				// runs at function exit: every exit must come after the Wait
-				allInstrs(fn, func(j ssa.Instruction) {
-					if _, isRD := j.(*ssa.RunDefers); isRD && !domByWait(j) {
-						why = "deferred cancel() (defer at " + a.pos(in) + " in " + a.name(fn) + ") runs at an exit not preceded by jobWaiter.Wait()"
+			})
+			domByWait := func(at ssa.Instruction) bool {
+				for _, w := range waits {
+					if instrDominates(w, at) {
+						return true
 					}
-				})
+				}
+				return false
 			}
-		})
+			for _, u := range refs(it.val) {
+				switch x := u.(type) {
+				case *ssa.DebugRef:
+				case *ssa.Store:
+					cell, ok := x.Addr.(*ssa.Alloc)
+					if !ok || x.Val != it.val {
+						escaped = "stored at " + a.pos(u)
+						continue
+					}
+					// a local cell: loads and captures denote the cancel function too
+					for _, cu := range refs(cell) {
+						switch y := cu.(type) {
+						case *ssa.Store:
+							if y.Addr != cell {
+								escaped = "cell stored at " + a.pos(cu)
+							}
+						case *ssa.UnOp:
+							work = append(work, item{fn, y})
+						case *ssa.MakeClosure:
+							cl := y.Fn.(*ssa.Function)
+							for bi, b := range y.Bindings {
+								if b == ssa.Value(cell) && bi < len(cl.FreeVars) {
+									for _, fu := range refs(cl.FreeVars[bi]) {
+										if ld, ok := fu.(*ssa.UnOp); ok && ld.Op == token.MUL {
+											work = append(work, item{cl, ld})
+										}
+									}
+								}
+							}
+						case *ssa.DebugRef:
+						default:
+							escaped = "cell used at " + a.pos(cu)
+						}
+					}
+				case *ssa.MakeClosure:
+					cl := x.Fn.(*ssa.Function)
+					for bi, b := range x.Bindings {
+						if b == it.val && bi < len(cl.FreeVars) {
+							work = append(work, item{cl, cl.FreeVars[bi]})
+						}
+					}
+				case ssa.CallInstruction:
+					if x.Common().Value == it.val {
+						nCalls++
+						switch u.(type) {
+						case *ssa.Call:
+							if !domByWait(u) {
+								why = "cancel() at " + a.pos(u) + " in " + a.name(fn) + " is not preceded by the job counter's Wait()"
+							}
+						case *ssa.Go:
+							why = "cancel is spawned with go at " + a.pos(u) + " (no wait for the jobs)"
+						case *ssa.Defer:
+							allInstrs(fn, func(j ssa.Instruction) {
+								if _, isRD := j.(*ssa.RunDefers); isRD && !domByWait(j) {
+									why = "deferred cancel() (defer at " + a.pos(u) + " in " + a.name(fn) + ") runs at an exit not preceded by the job counter's Wait()"
+								}
+							})
+						}
+						continue
+					}
+					// passed as an argument to a module function: follow the parameter
+					h := staticCallee(x)
+					followed := false
+					if h != nil && a.p.funcSet[h] {
+						for k, arg := range x.Common().Args {
+							if arg == it.val && k < len(h.Params) {
+								work = append(work, item{h, h.Params[k]})
+								followed = true
+							}
+						}
+					}
+					if !followed {
+						escaped = "passed to a call at " + a.pos(u)
+					}
+				case *ssa.Return:
+					escaped = "returned at " + a.pos(u)
+				default:
+					escaped = "used at " + a.pos(u)
+				}
+			}
+		}
+		if escaped != "" {
+			r.Undecide("C05.S3: Stop's cancel function escapes (%s); its call sites cannot be enumerated", escaped)
+			return
+		}
 	}
+	r.OK("C05.S3-stop-context", cRet, a.pos(firstWC), "every return of Stop yields the context created by context.WithCancel")
 	if nCalls == 0 {
 		r.Note("C05.S3: Stop's cancel function is never called: the returned context never completes (liveness, not armed)")
 	}
-	r.Check(why == "", "C05.S3-stop-context", cCan, a.pos(wc),
-		"every call of the context's cancel is dominated by jobWaiter.Wait()",
+	r.Check(why == "", "C05.S3-stop-context", cCan, a.pos(firstWC),
+		"every call of the context's cancel is dominated by the job counter's Wait()",
 		"the context returned by Stop can complete while a started job is still running: "+why)
 }
